@@ -107,6 +107,10 @@ def jobs_for(pids=None):
     allp = tuple(sorted(pids)) if pids else tuple(f'C{i:02d}' for i in range(1, 21))
     for tname in ('rename', 'flipcmp', 'swapif', 'all', 'augexpand', 'reorder', 'retlocal', 'demorgan', 'ternary', 'chainsplit', 'elsejump', 'dropelse', 'extractcond'):
         jobs.append(('silent', allp, '*transform*', tname, None, None, None, f'silent-transform-{tname}'))
+    for patch in sorted(glob.glob(os.path.join(VERIF, 'seeded_benign', '*', 'patch.diff'))):
+        # behaviour-preserving refactorings written by independent sub-agents (145 tests pass): every check stays silent
+        name = os.path.basename(os.path.dirname(patch))
+        jobs.append(('silent', allp, None, None, None, None, patch, f'benign-{name}'))
     for patch in sorted(glob.glob(os.path.join(VERIF, 'seeded', '*', 'patch.diff'))):
         name = os.path.basename(os.path.dirname(patch))
         pid = name.split('_')[0]
